@@ -320,6 +320,8 @@ func tableLayout(context *layoutContext, table_ bo.TableBoxITF, bottomSpace pr.F
 						}
 					}
 					row.Height = pr.Max(rowBottomY-row.PositionY, 0)
+					// the ending cells cover the whole row, even if it is taller than them
+					rowBottomY = row.PositionY + row.Height.V()
 				} else {
 					var m pr.Float
 					for _, rowCell := range endingCells {
